@@ -526,6 +526,10 @@ func (s *state) evalCall(node *ast.CallNode) {
 		}
 	}
 
+	// (evaluating the params moved the position to the last node of the last
+	// param; an error inside the callee belongs to the call command.)
+	s.at(node)
+
 	callData.enter()
 	state := &state{
 		tmpl:       calledTmpl,
